@@ -499,13 +499,16 @@ def apalache(prop):
     if not os.path.exists(src) or not shutil.which("apalache-mc"):
         return {"ran": False}
     shutil.copy(src, wd)
+    shutil.copy(os.path.join(vlib.SPEC, "WaitCond.tla"), wd)
     out = {"ran": True}
     env = dict(os.environ)
     env["TMPDIR"] = wd
     env["JVM_ARGS"] = env.get("JVM_ARGS", "") + " -Djava.io.tmpdir=" + wd
     for name, args in (("init_implies_inv", ["--cinit=CInit", "--init=Init", "--inv=IndInv", "--length=0"]),
-                       ("inductive_step", ["--cinit=CInit", "--init=IndInv", "--inv=IndInv", "--length=1"]),
-                       ("inv_implies_property", ["--cinit=CInit", "--init=IndInv", "--inv=Safety", "--length=0"])):
+                       ("inductive_step_call_park", ["--cinit=CInit", "--init=IndInv", "--inv=IndInv", "--length=1"]),
+                       ("inv_implies_C20_Step_call_park", ["--cinit=CInit", "--init=IndInv", "--inv=StepOK", "--length=1"]),
+                       ("inductive_step_register_race", ["--cinit=CInitAtomic", "--init=IndInv", "--inv=IndInv", "--length=1"]),
+                       ("inv_implies_C20_Step_register_race", ["--cinit=CInitAtomic", "--init=IndInv", "--inv=StepOK", "--length=1"])):
         t0 = time.time()
         try:
             p = subprocess.run(["apalache-mc", "check", "--out-dir=" + os.path.join(wd, "o_" + name), "--run-dir=" + os.path.join(wd, "r_" + name)] + args + ["WaitCondTyped.tla"],
